@@ -22,7 +22,7 @@
 (*   (blank)                                                               *)
 (*   I              "- it [i](2)"              a list item with a link ... *)
 (*   J              "  more [j](2)"            ... and a second line       *)
-(*   K, K2          "- k [wra" "  pped](2)"    a second item that ends in a  *)
+(*   K, K2          "- kkkkkkkk [wra" "  p](2)" a second item that ends in a  *)
 (*                                             link wrapped over two lines   *)
 (*   (blank)                                                               *)
 (*   Q              "> [q](2)"                 a quote holding one reference *)
@@ -58,7 +58,7 @@ LastLine(P) == ItemLine(P)
 \* the item has a second line (the same tight paragraph); after it a block quote that holds a single
 \* block reference, a table with a link in a cell, and a last paragraph of two lines
 JLineW(P, wrap) == ItemLineW(P, wrap) + 1
-\* a second item whose link is wrapped over two lines (K: "- k [wra", K2: "  pped](2)")
+\* a second item whose link is wrapped over two lines (K: "- kkkkkkkk [wra", K2: "  p](2)")
 KLineW(P, wrap) == JLineW(P, wrap) + 1
 K2LineW(P, wrap) == JLineW(P, wrap) + 2
 QuoteLineW(P, wrap) == K2LineW(P, wrap) + 2
